@@ -31,7 +31,7 @@ from vf.rec import Rec
 
 ID = 'C16'
 LEVEL = 'model_checking'
-TECHNIQUE = ('explicit-state exploration of the configuration graph of 13 catalog structures on the real '
+TECHNIQUE = ('explicit-state exploration of the configuration graph of 16 (+1 in the thorough tier) catalog structures on the real '
              'Catalog/Controller/CentralController objects: every configuration x every operator x step alphabet '
              'x every answer of the random seam, compared step by step with a plain-Python reference model; every '
              'configuration evaluated through the engine against the formula written out by hand')
@@ -47,7 +47,7 @@ ASSUMPTIONS = [
     '(choices / sample / choice / randint / randrange / shuffle are owned and enumerated; any other use is a harness error)',
     'the engine (cythonbiogeme) is trusted to evaluate a plain formula; values are additionally compared with stdlib math '
     '(rel 1e-10) on a 4-row table at two parameter points',
-    'structures are bounded: <= 3 controllers, <= 4 selections per controller, <= 12 configurations per structure',
+    'structures are bounded: <= 3 controllers, <= 4 selections per controller, <= 12 configurations per structure (24 in the thorough tier)',
 ]
 ANCHOR_FILES = ['src/biogeme/catalog.py', 'src/biogeme/controller.py', 'src/biogeme/configuration.py',
                 'src/biogeme/expressions/multiple_expressions.py', 'src/biogeme/expressions/catalog_iterator.py',
@@ -413,10 +413,37 @@ def structures(seed):
     u1 = ('cat', n['c1'], None, [(m[0], ('*', b1, x)), (m[1], ('*', b1, ('log', x)))])
     a1 = ('cat', n['c3'], None, [(m[0], N(1)), (m[1], V('av'))])
     add('logit_avail2x2', ('loglogit', [(1, u1), (2, ('*', b2, y)), (3, ('+', u1, bf))], [(1, N(1)), (2, N(1)), (3, a1)], V('ch')))
+    # 14. a controller with a single selection (1 x 3): arithmetic modulo 1
+    s1 = ('cat', n['c3'], None, [(m[1], ('*', b3, z))])
+    add('single1x3', ('-', ('*', b2, c2), s1))
+    # 15. three levels of nesting (2 x 2 x 2)
+    l3 = ('cat', n['c3'], None, [(m[0], x), (m[1], ('exp', ('neg', x)))])
+    l2 = ('cat', n['c2'], None, [(m[2], ('*', b2, l3)), (m[0], ('*', b2, y))])
+    l1 = ('cat', n['c1'], None, [(m[1], ('+', l2, b1)), (m[3], ('*', z, b3))])
+    add('nested3levels', ('/', l1, ('num', 2.0)), big=True)
+    # 16. outer and inner catalog governed by the same controller, plus an independent catalog (2 x 2)
+    in_k = ('cat', n['c2'], n['K'], [(m[0], x), (m[1], ('log', x))])
+    out_k = ('cat', n['c1'], n['K'], [(m[0], ('*', b1, in_k)), (m[1], ('-', in_k, b1))])
+    add('nested_same_controller', ('+', out_k, ('*', c3, b2)))
     return S
 
 
+def thorough_only(seed):
+    """The largest structure (thorough tier only): three controllers 3 x 4 x 2 = 24 configurations."""
+    al = alphabet(seed)
+    n = al['names']
+    m = n['m']
+    b1, b2, b3, bf = B(al, 'b1'), B(al, 'b2'), B(al, 'b3'), B(al, 'bf', 1)
+    x, y, z = V('x'), V('y'), V('z')
+    t1 = ('cat', n['c1'], None, [(m[0], x), (m[1], ('log', x)), (m[2], ('pow', x, 2))])
+    t2 = ('cat', n['c2'], None, [(m[3], y), (m[2], ('*', y, z)), (m[1], ('exp', ('neg', y))), (m[0], ('/', y, x))])
+    t3 = ('cat', n['c3'], None, [(m[0], ('*', b3, z)), (m[3], ('-', bf, z))])
+    return dict(name='three3x4x2', term=('msum', [('*', b1, t1), ('*', b2, t2), t3, ('*', t1, t3)]), helpers=[], big=True, seed=seed)
+
+
 def get_structure(seed, name):
+    if name == 'three3x4x2':
+        return thorough_only(seed)
     for st in structures(seed):
         if st['name'] == name:
             return st
@@ -501,10 +528,10 @@ class RefSpace:
     def steps_for(self, desc):
         if desc[0] in ('inc', 'dec'):
             s = len(self.ctrl[desc[1]])
-            return sorted({0, 1, 2, 3, s, s + 1})
+            return sorted({0, 1, 2, 3, s, s + 1, 7})
         if desc[0] == 'pair':
             s1, s2 = len(self.ctrl[desc[1]]), len(self.ctrl[desc[2]])
-            return sorted({0, 1, 2, 3, s1, s1 + 1, s2, s2 + 1})
+            return sorted({0, 1, 2, 3, s1, s1 + 1, s2, s2 + 1, 7})
         nc = len(self.names)
         return sorted({0, 1, 2, 3, nc, nc + 1})
 
@@ -601,8 +628,40 @@ def unpatch_random():
     ctl.random = real
 
 
+class Raised:
+    """An operator application that raised inside the library (a result, not a harness error)."""
+
+    def __init__(self, exc):
+        self.exc = exc
+        self.text = f'{type(exc).__name__}: {exc}'
+
+
+def library_raised(exc):
+    """True when the innermost frame of the traceback is library code (not this driver, not the kernel)."""
+    tb = exc.__traceback__
+    last = None
+    while tb is not None:
+        last = tb.tb_frame.f_code.co_filename
+        tb = tb.tb_next
+    if isinstance(exc, Unowned) or last is None:
+        return False
+    return '/biogeme/' in last.replace(os.sep, '/') and '/verif/' not in last
+
+
+def where_raised(exc):
+    tb = exc.__traceback__
+    name = '?'
+    while tb is not None:
+        fn = tb.tb_frame.f_code.co_filename.replace(os.sep, '/')
+        if '/biogeme/' in fn:
+            name = f'{os.path.basename(fn)}:{tb.tb_frame.f_code.co_name}'
+        tb = tb.tb_next
+    return name
+
+
 def all_answers(run):
-    """Runs `run()` once per possible answer tape of the random seam; yields (picked names, result)."""
+    """Runs `run()` once per possible answer tape of the random seam; yields (picked names, tape, result).
+    A run that raises inside the library yields a `Raised` result."""
     script = []
     n = 0
     while script is not None:
@@ -610,6 +669,10 @@ def all_answers(run):
         _FAKE.picked = []
         try:
             res = run()
+        except Exception as e:
+            if not library_raised(e):
+                raise
+            res = Raised(e)
         finally:
             ch, _FAKE.ch = _FAKE.ch, None
         yield list(_FAKE.picked), tuple(v for v, _ in ch.trace), res
@@ -944,13 +1007,16 @@ PARTS = ('static', 'ops', 'hidden', 'chains')
 def tasks(tier, seed):
     t = []
     sts = structures(seed)
+    if tier == 'thorough':
+        sts = sts + [thorough_only(seed)]
     for st in sts:
         t.append(dict(part='static', st=st['name'], seed=seed, tier=tier))
     for st in sts:
         sp = RefSpace(st)
         ids = sp.all_ids()
-        for i in range(0, len(ids), 3):
-            t.append(dict(part='ops', st=st['name'], seed=seed, tier=tier, starts=ids[i:i + 3]))
+        per = 1 if len(sp.names) >= 3 else 2
+        for i in range(0, len(ids), per):
+            t.append(dict(part='ops', st=st['name'], seed=seed, tier=tier, starts=ids[i:i + per]))
     for st in sts:
         t.append(dict(part='hidden', st=st['name'], seed=seed, tier=tier))
     depth = 2 if tier == 'quick' else 3
@@ -983,14 +1049,27 @@ def run_task(task, _raw=False):
                               expected=expected, observed=observed)
             return vio
 
-        if task['part'] == 'static':
-            _static(task, st, space, rec, vio_factory(''))
-        elif task['part'] == 'ops':
-            _ops(task, st, space, rec, vio_factory)
-        elif task['part'] == 'hidden':
-            _hidden(task, st, space, rec, vio_factory)
-        elif task['part'] == 'chains':
-            _chains(task, st, space, rec, vio_factory)
+        try:
+            if task['part'] == 'static':
+                _static(task, st, space, rec, vio_factory(''))
+            elif task['part'] == 'ops':
+                _ops(task, st, space, rec, vio_factory)
+            elif task['part'] == 'hidden':
+                _hidden(task, st, space, rec, vio_factory)
+            elif task['part'] == 'chains':
+                _chains(task, st, space, rec, vio_factory)
+        except Exception as e:
+            # every input of this driver is valid: an exception raised by library code is an observed outcome
+            if not library_raised(e):
+                raise
+            if isinstance(e, RuntimeError):
+                rec.retire = True
+            import traceback
+            rec.case(('raised', st['name'], task['part']), type(e).__name__, outcome='library-raised')
+            vio_factory('')('library-raises-on-a-valid-structure',
+                            f'part {task["part"]}: {type(e).__name__}: {e} (in {where_raised(e)}); the rest of this task was not explored\n'
+                            + ''.join(traceback.format_tb(e.__traceback__)[-3:]),
+                            None, f'{type(e).__name__}: {e}', witness=f'{type(e).__name__}@{where_raised(e)}')
     finally:
         unpatch_random()
     return rec if _raw else rec.result()
@@ -1040,6 +1119,19 @@ def _static(task, st, space, rec, vio):
     if [c.controller_name for c in cc.controllers] != space.names or \
             [list(c.specification_names) for c in cc.controllers] != [space.ctrl[c] for c in space.names]:
         vio('controllers-differ-from-description', f'{[str(c) for c in cc.controllers]} vs {space.ctrl}', space.ctrl, None)
+
+    # the enumeration bound of CentralController: the size never depends on it
+    from biogeme.controller import CentralController
+    for mx in (space.size() - 1, space.size(), space.size() + 1):
+        cc2 = CentralController(Real(st, space, seed).expr, maximum_number_of_configurations=mx)
+        got = None if cc2.all_configurations is None else sorted(c.get_string_id() for c in cc2.all_configurations)
+        rec.case(('max', st['name'], mx - space.size()), (mx, got), outcome=('max', got is None))
+        if cc2.number_of_configurations() != space.size():
+            vio('number-of-configurations-is-not-the-product', f'CentralController(maximum={mx}).number_of_configurations() = '
+                f'{cc2.number_of_configurations()}', space.size(), cc2.number_of_configurations(), witness='explicit-maximum')
+        if (got is None) != (space.size() > mx) or (got is not None and got != sorted(ids)):
+            vio('set-of-configurations-is-not-the-product', f'CentralController(maximum={mx}): {got}', sorted(ids), got,
+                witness='explicit-maximum')
 
     # 2. identifiers ------------------------------------------------------------------------------
     seen_ids = {}
@@ -1227,8 +1319,14 @@ def _ops(task, st, space, rec, vio_factory):
             kind = _op_kind(desc)
             vio = vio_factory(kind)
             for step in space.steps_for(desc):
-                for picked, tape, (new_id, nsteps, (cur, sel)) in _apply_real(real, ops, opname, cid, step, Configuration):
+                for picked, tape, res in _apply_real(real, ops, opname, cid, step, Configuration):
                     rec.transition()
+                    if isinstance(res, Raised):
+                        rec.case(('op', st['name'], cid, opname, step, tape), (cid, opname, step, tape, res.text), outcome='raised')
+                        vio('operator-raises-on-a-valid-configuration',
+                            f'{opname}({cid!r}, step {step}, random answer {picked}) raised {res.text}', 'a configuration', res.text)
+                        continue
+                    new_id, nsteps, (cur, sel) = res
                     accept = [space.cid(c) for c in space.apply(choice, desc, step, picked)]
                     changed = new_id != cid
                     rec.case(('op', st['name'], cid, opname, step, tape) if changed else None,
@@ -1256,7 +1354,7 @@ def _ops(task, st, space, rec, vio_factory):
                         vio('object-state-differs-from-returned-configuration', f'after {opname}({cid!r}, {step}): object in {cur!r}, '
                             f'returned {new_id!r}', new_id, cur)
                     else:
-                        real.check_state(new_id, hand, rec, vio, 2 if step in (1, 2) or desc[0] == 'several' else 1)
+                        real.check_state(new_id, hand, rec, vio, 2 if step in (1, 2) else 1)
                     # the argument must not be altered
                     if not isinstance(nsteps, int):
                         vio('operator-result-differs-from-model', f'{opname} reports {nsteps!r} modifications', 'int', repr(nsteps))
@@ -1268,8 +1366,16 @@ def _ops(task, st, space, rec, vio_factory):
                 for first, second in ((f'Increase {c}', f'Decrease {c}'), (f'Decrease {c}', f'Increase {c}')):
                     if first not in ops or second not in ops:
                         continue
-                    mid, _ = ops[first](Configuration.from_string(cid), step)
-                    back, _ = ops[second](mid, step)
+                    try:
+                        mid, _ = ops[first](Configuration.from_string(cid), step)
+                        back, _ = ops[second](mid, step)
+                    except Exception as e:
+                        if not library_raised(e):
+                            raise
+                        rec.case(('inv', st['name'], cid, first, step), (cid, first, step, type(e).__name__), outcome='raised')
+                        vio('operator-raises-on-a-valid-configuration', f'{second}({first}({cid!r}, {step}), {step}) raised '
+                            f'{type(e).__name__}: {e}', cid, type(e).__name__)
+                        continue
                     rec.transition(2)
                     ok = back.get_string_id() == cid
                     rec.case(('inv', st['name'], cid, first, step) if mid.get_string_id() != cid else None,
@@ -1290,8 +1396,15 @@ def _ops(task, st, space, rec, vio_factory):
                     if f1 not in ops or f2 not in ops:
                         continue
                     for step in (1, 2, 3):
-                        mid, _ = ops[f1](Configuration.from_string(cid), step)
-                        back, _ = ops[f2](mid, step)
+                        try:
+                            mid, _ = ops[f1](Configuration.from_string(cid), step)
+                            back, _ = ops[f2](mid, step)
+                        except Exception as e:
+                            if not library_raised(e):
+                                raise
+                            vio('operator-raises-on-a-valid-configuration', f'{f2}({f1}({cid!r}, {step}), {step}) raised '
+                                f'{type(e).__name__}: {e}', cid, type(e).__name__, witness='pair')
+                            continue
                         rec.transition(2)
                         ok = back.get_string_id() == cid
                         rec.case(('inv2', st['name'], cid, f1, step), (cid, f1, step, back.get_string_id()), outcome=('inverse', ok))
@@ -1345,8 +1458,14 @@ def _hidden(task, st, space, rec, vio_factory):
                         new, nsteps = ops[opname](arg, step)
                         return new.get_string_id(), arg.get_string_id(), real.cheap_state()
 
-                    for picked, tape, (new_id, arg_after, (cur, sel)) in all_answers(run):
+                    for picked, tape, res in all_answers(run):
                         rec.transition()
+                        if isinstance(res, Raised):
+                            rec.case(('hid', st['name'], s_id, cid, opname, step, tape), (s_id, cid, opname, step, res.text), outcome='raised')
+                            vio('operator-raises-on-a-valid-configuration',
+                                f'object in {s_id!r}: {opname}({cid!r}, step {step}, answer {picked}) raised {res.text}', None, res.text)
+                            continue
+                        new_id, arg_after, (cur, sel) = res
                         accept = [space.cid(c) for c in space.apply(choice, desc, step, picked)]
                         rec.case(('hid', st['name'], s_id, cid, opname, step, tape) if new_id != cid and s_id != cid else None,
                                  (s_id, cid, opname, step, tape, new_id), outcome=('to', st['name'], new_id))
@@ -1398,10 +1517,16 @@ def _chains(task, st, space, rec, vio_factory):
                     new, _ = ops[opname](Configuration.from_string(cid), step)
                     return new.get_string_id(), real.cheap_state()
 
-                for picked, tape, (new_id, (cur, sel)) in all_answers(run):
+                for picked, tape, res in all_answers(run):
                     rec.transition()
                     counter['n'] += 1
                     hist = history + [(opname, step, tape)]
+                    if isinstance(res, Raised):
+                        rec.case(('chain', st['name'], task['start'], tuple(hist)), None, outcome='raised')
+                        vio('operator-raises-on-a-valid-configuration', f'history {hist} from {task["start"]!r} raised {res.text}',
+                            None, res.text)
+                        continue
+                    new_id, (cur, sel) = res
                     accept = [space.cid(c) for c in space.apply(space.parse(cid), desc, step, picked)]
                     rec.case(('chain', st['name'], task['start'], tuple(hist)) if new_id != cid else None,
                              None, outcome=('to', st['name'], new_id))
@@ -1438,9 +1563,10 @@ def _chains(task, st, space, rec, vio_factory):
 
 # =========================================================================== cross-task oracle
 def finalize(agg, tier, seed):
-    want = sum(RefSpace(st).size() for st in structures(seed))
+    sts = structures(seed) + ([thorough_only(seed)] if tier == 'thorough' else [])
+    want = sum(RefSpace(st).size() for st in sts)
     agg.counts['configurations_in_all_products'] = want
-    agg.counts['structures'] = len(structures(seed))
+    agg.counts['structures'] = len(sts)
     agg.counts['traces_validated'] = agg.transitions
     if not agg.harness_errors and len(agg.states) != want:
         agg.violations.append(dict(
